@@ -351,6 +351,12 @@ def cert_option(rng, critical):
         name = rng.choice(['x@example.com', 'verify-required', 'xpermit-pty', 'no-touch-required', 'a'])
         assert name not in known
         return sk.SshCertExtensionUnparsed(name, rbytes(rng, rlen(rng, 20)))
+    if critical and r < 0.45:
+        # a source-address option the library cannot read as networks (host bits set, junk): it is kept verbatim as an
+        # unparsed option, so the certificate blob - and with it every fingerprint - must stay what is on the wire
+        return sk.SshCertExtensionUnparsed('source-address', rng.choice([
+            b'192.168.1.10/24', b'10.0.0.1/8,192.168.0.0/16', b'2001:db8::1/32', b'192.168.1.0/24,2001:db8::dead:beef/64',
+            b'not-an-address', b'']))
     if critical:
         return sk.SshCertExtensionForceCommand(rng.choice(['ls', '/bin/true', '', 'echo "a b"']))
     return rng.choice([sk.SshCertExtensionNoPrecenseRequired, sk.SshCertExtensionPermitX11Forwarding,
